@@ -535,8 +535,9 @@ class Check:
         new_violations = []
         known_hits = {}
         exit_code = 0
-        os.makedirs(os.path.join(VERIF, "replays"), exist_ok=True)
-        for old in glob.glob(os.path.join(VERIF, "replays", self.prop + "-*.plan")):
+        rpdir = os.environ.get("HWSIM_REPLAY_DIR", os.path.join(VERIF, "replays"))
+        os.makedirs(rpdir, exist_ok=True)
+        for old in glob.glob(os.path.join(rpdir, self.prop + "-*.plan")):
             os.unlink(old)
         for cls in sorted(by_class):
             rs = by_class[cls]
@@ -565,7 +566,7 @@ class Check:
             if c2[0] != cls or c3[0] != cls or c2[2] != c3[2]:
                 self.log("minimised plan does not replay identically (%s/%s, %s/%s); reporting the unminimised plan" % (c2[0], c3[0], c2[2], c3[2]))
                 small = plan
-            rp = os.path.join(VERIF, "replays", "%s-%d.plan" % (self.prop, r.seed))
+            rp = os.path.join(rpdir, "%s-%d.plan" % (self.prop, r.seed))
             with open(rp, "w") as f:
                 f.write("# violation class: %s\n# detail: %s\n# replay: ./check --replay %s\n" % (cls, r.detail.replace("\n", " ")[:500], rp))
                 f.write(small)
@@ -634,8 +635,9 @@ class Check:
             "coverage": cov, "assumptions": self.assumptions, "wall_s": round(wall, 2),
             "violations": len(new_violations),
         }
-        os.makedirs(os.path.join(VERIF, "evidence"), exist_ok=True)
-        with open(os.path.join(VERIF, "evidence", self.prop + ".json"), "w") as f:
+        evdir = os.environ.get("HWSIM_EVIDENCE_DIR", os.path.join(VERIF, "evidence"))   # mutant runs write elsewhere
+        os.makedirs(evdir, exist_ok=True)
+        with open(os.path.join(evdir, self.prop + ".json"), "w") as f:
             json.dump(ev, f, indent=1, sort_keys=False)
             f.write("\n")
         zero_probes = [k for k, v in probes.items() if v == 0]
